@@ -500,6 +500,26 @@ def rule_new_sigs_verified(ctx: Ctx, rep: Report) -> None:
             keyvars = {x.id for x in ast.walk(lp.target.elts[0] if isinstance(lp.target, ast.Tuple) else lp.target) if isinstance(x, ast.Name)}
             src = it.func.value
             key = f"{fi.name}:{norm(src)}"
+            # the message each signature is verified against is the one *its own* hash type
+            # byte names: it is computed, inside the loop, from the signature
+            if isinstance(lp.target, ast.Tuple) and len(lp.target.elts) == 2:
+                sigvars = {x.id for x in ast.walk(lp.target.elts[1]) if isinstance(x, ast.Name)}
+                for vc in [c for s_ in lp.body for c in ast.walk(s_) if isinstance(c, ast.Call) and call_name(c) == "verify_" and c.args]:
+                    need = {x.id for x in ast.walk(vc.args[0]) if isinstance(x, ast.Name)}
+                    seen: set[str] = set()
+                    dep = False
+                    while need and not dep:
+                        nm = need.pop()
+                        if nm in seen:
+                            continue
+                        seen.add(nm)
+                        if nm in sigvars:
+                            dep = True
+                            break
+                        for a_ in [a_ for s_ in lp.body for a_ in ast.walk(s_) if isinstance(a_, ast.Assign) and any(isinstance(t, ast.Name) and t.id == nm for t in a_.targets)]:
+                            need |= {x.id for x in ast.walk(a_.value) if isinstance(x, ast.Name)}
+                    rep.ob(rule, f"{key}:own_hash_type", dep, fi.where(vc), "the message is computed in the loop from the signature (its hash type byte)" if dep else
+                           f"the message `{norm(vc.args[0])}` handed to verify_ does not depend on the signature being verified: a signature is checked against the hash of another hash type than the one it states")
             if isinstance(src, ast.Attribute):
                 # the whole map; skips inside the loop must be per key
                 conts = [n for n in ast.walk(lp) if isinstance(n, ast.If) and any(isinstance(s, ast.Continue) for s in n.body)]
@@ -524,7 +544,7 @@ def rule_new_sigs_verified(ctx: Ctx, rep: Report) -> None:
                                 ok = False
                                 why = f"filter condition `{norm(disj)}` does not depend on the signature's key"
                 rep.ob(rule, key, ok, fi.where(lp), why)
-    rep.floor(rule, 2)
+    rep.floor(rule, 3)
 
 
 def _through_loop(g, call: ast.Call) -> list[int]:
